@@ -99,6 +99,30 @@ def build_project(seed, flat=False, nfiles=None):
     return files, tags
 
 
+_LIB_JSON = {}
+
+
+def lib_json(nm):
+    """modules.json of a small library documented by the real FORD with `externalize` (made once per process): a module whose derived
+    type and constructor interface share one name, so that an unqualified [[vec]] has several candidates among the external entities"""
+    if nm not in _LIB_JSON:
+        d = core.mktemp("vf_c12lib_")
+        try:
+            os.makedirs(os.path.join(d, "src"))
+            open(os.path.join(d, "src", "lib.f90"), "w").write("\n".join([
+                f"module only_{nm}", "!! doc", "implicit none", "type :: vec", "!! doc", "real :: x", "end type vec", "interface vec", "!! doc", "module procedure mk_vec", "end interface",
+                "interface norm", "!! doc", "module procedure norm_v", "end interface", "integer :: norm_count = 0", "!! doc", "contains",
+                "function mk_vec(x) result(v)", "!! doc", "real, intent(in) :: x", "type(vec) :: v", "v%x = x", "end function mk_vec",
+                "function norm_v(v) result(r)", "!! doc", "type(vec), intent(in) :: v", "real :: r", "r = v%x", "end function norm_v", f"end module only_{nm}",
+                "module zz_unknown_lib_1", "!! doc", "end module zz_unknown_lib_1", "module aa_unknown_lib", "!! doc", "end module aa_unknown_lib"]) + "\n")
+            site.write_project_file(d, {"project": nm, "src_dir": "./src", "output_dir": "./doc", "preprocess": False, "externalize": True, "search": False, "graph": False, "parallel": 0, "quiet": True})
+            r = site.run_cli(d, env={"PYTHONHASHSEED": "0"})
+            _LIB_JSON[nm] = open(os.path.join(d, "doc", "modules.json")).read() if r["rc"] == 0 else None
+        finally:
+            shutil.rmtree(d, ignore_errors=True)
+    return _LIB_JSON[nm]
+
+
 def write_project(root, files, seed, opts_extra, name="Determinism", pages=True):
     proj = os.path.join(root, "proj")
     os.makedirs(proj, exist_ok=True)
@@ -126,8 +150,12 @@ def write_project(root, files, seed, opts_extra, name="Determinism", pages=True)
             os.makedirs(d, exist_ok=True)
             mods = [{"name": m, "external_url": f"./module/{m}.html", "obj": "module", "pub_procs": {}, "pub_absints": {}, "pub_types": {}, "pub_vars": {}, "functions": [],
                      "subroutines": [], "interfaces": [], "absinterfaces": [], "types": [], "variables": [], "permission": "public"} for m in ("zz_unknown_lib_1", "aa_unknown_lib", "only_" + nm)]
-            json.dump({"ford-metadata": {"version": "0"}, "modules": mods}, open(os.path.join(d, "modules.json"), "w"))
-    site.write_project_file(proj, opts, body="Front page with [[gen_0]].\n")
+            real = lib_json(nm) if seed % 2 else None
+            if real:
+                open(os.path.join(d, "modules.json"), "w").write(real)
+            else:
+                json.dump({"ford-metadata": {"version": "0"}, "modules": mods}, open(os.path.join(d, "modules.json"), "w"))
+    site.write_project_file(proj, opts, body="Front page with [[gen_0]]." + (" External: [[vec]], [[norm]], [[mk_vec]], [[only_libb]]." if opts.get("external") else "") + "\n")
     return proj
 
 
@@ -202,6 +230,9 @@ def project_setup(seed, kind, root):
         opts_extra["sort"] = rng.choice(["src", "permission", "permission-alpha", "type", "type-alpha"])
     if rng.random() < 0.5:
         opts_extra["graph_maxnodes"] = rng.choice([1, 2, 3])  # small limit: graphs are rendered as tables
+    if rng.random() < 0.3:
+        # a format for the creation date without switching the date on: nothing of the run time may show
+        opts_extra["creation_date"] = "%Y-%m-%d %H:%M:%S.%f"
     if rng.random() < 0.35:
         # several external projects that document equally named modules (which the project uses)
         opts_extra["external"] = {"liba": "./ext/liba", "libb": "./ext/libb", "libc": "./ext/libc"}
